@@ -10,6 +10,9 @@ const WhopLocSymbol = Symbol("whopper-location")
 type WhopLoc struct {
 	Method  *Method
 	Current int
+	// Primary is true when Current is the index of a primary method that is
+	// being called and not of a whopper or :around method.
+	Primary bool
 }
 
 // String representation of the Object.
@@ -43,6 +46,14 @@ func (wl *WhopLoc) Eval(s *Scope, depth int) Object {
 }
 
 func (wl *WhopLoc) Continue(s *Scope, args List, depth int) Object {
+	if wl.Primary {
+		for i := wl.Current + 1; i < len(wl.Method.Combinations); i++ {
+			if wl.Method.Combinations[i].Primary != nil {
+				return wl.Method.primaryCall(s, i, args, depth)
+			}
+		}
+		return nil
+	}
 	for i := wl.Current + 1; i < len(wl.Method.Combinations); i++ {
 		wrap := wl.Method.Combinations[i].Wrap
 		if wrap == nil {
@@ -59,6 +70,14 @@ func (wl *WhopLoc) Continue(s *Scope, args List, depth int) Object {
 }
 
 func (wl *WhopLoc) HasNext() bool {
+	if wl.Primary {
+		for i := wl.Current + 1; i < len(wl.Method.Combinations); i++ {
+			if wl.Method.Combinations[i].Primary != nil {
+				return true
+			}
+		}
+		return false
+	}
 	for i := wl.Current + 1; i < len(wl.Method.Combinations); i++ {
 		if wl.Method.Combinations[i].Wrap != nil {
 			return true
